@@ -104,6 +104,10 @@ Section Store.
                 end
     end.
 
+  (* DictObjectStore.__init__(objects):  self._backend = {};  for x in objects: self.add(x)
+     - a new, independent dict, whatever `objects` is (a list, a generator, another store) *)
+  Definition construct (xs : list obj) : st * out := update [] xs.
+
   Inductive op :=
   | Add (x : obj) | Discard (x : obj) | Remove (x : obj) | Pop | Clear
   | Update (xs : list obj)            (* store.update(xs) *)
